@@ -187,7 +187,9 @@ theorem shortcuts_eq :
 /-- `Register`'s own three expectations are the model's `regSelfOk` -/
 theorem registerExpects_eq (pt : Ty) (name : String) (dup : Bool) :
     (registerExpects pt name dup).all id = regSelfOk pt (name == "") dup := by
-  by_cases hn : name = "" <;> cases dup <;> simp [registerExpects, regSelfOk, hn, bne]
+  -- whichever order the three expectations come in
+  by_cases hn : name = "" <;> cases dup <;> cases hk : (pt.kind == Kind.iface) <;>
+    simp [registerExpects, regSelfOk, hn, bne, hk]
 
 /-- `Register`'s own expectations hold for an interface plugin type, a non-empty name, a name not yet taken -/
 theorem registerExpects_ok : (registerExpects plugT "x" false).all id = true := by decide
@@ -316,5 +318,26 @@ theorem register_steps : registerSteps =
 
 /-- `Lookup` answers whether the plugin type owns a name table (model: `sst.types.contains t`) -/
 theorem lookup_steps : lookupSteps = ["_, $bool := $*Registry.typeToNameReg[$reflect.Type]", "return $bool"] := by decide
+
+/-! ### the config hooks (model: `Model/C18Hook`) -/
+
+/-- `Hook` / `FactoryHook`: first `Lookup` / `LookupFactory` of the field's type — data handed back untouched when it
+answers no —, then `parseConf` whose error is the hook's error, then the creation by the parsed name with the parsed
+fillConf: the model's `hook` -/
+theorem hook_steps :
+    hookSteps = ["if !plugin.Lookup($reflect.Type#1) { return $any, nil }",
+      "$string, $func, $error := parseConf($reflect.Type#1, $any)", "if $error != nil { return }",
+      "return plugin.New($reflect.Type#1, $string, $func)"] ∧
+    factoryHookSteps = ["if !plugin.LookupFactory($reflect.Type#1) { return $any, nil }",
+      "$string, $func, $error := parseConf($reflect.Type#1, $any)", "if $error != nil { return }",
+      "return plugin.NewFactory($reflect.Type#1, $string, $func)"] := by decide
+
+/-- `parseConf`: the plugin-name key is compared after lower-casing, its value must be a string, there must be neither
+none nor several of them, and exactly the key that was met is deleted from the data (membership, not equality: the
+repair of the empty-name defect adds one more test) -/
+theorem parseConf_checks :
+    "PluginNameKey == strings.ToLower($string#1)" ∈ parseConfConds ∧ "!$bool" ∈ parseConfConds ∧
+    "len($[]string) == 0" ∈ parseConfConds ∧ "len($[]string) > 1" ∈ parseConfConds ∧
+    parseConfDeletes = ["delete($map[string]interface{}, $string#1)"] := by decide
 
 end Pandora.Bridge.Plugin
